@@ -61,5 +61,32 @@ JudgeBack(e) ==
   ELSE IF e.found_again # 0 THEN "no-match-after-replacing-all"
   ELSE "ok"
 
-Judge(e) == IF e.kind = "groups" THEN JudgeGroups(e) ELSE IF e.kind = "self" THEN JudgeSelf(e) ELSE JudgeBack(e)
+(***************************************************************************)
+(* A recorded answer of the search on a floating-point structure (inputs of *)
+(* the repository's own tests).  matches[m] = reported index tuple;        *)
+(* rms[m] = root-mean-square deviation (micro-Angstrom, rounded up) of the  *)
+(* best PROPER rigid fit of the pattern onto those atoms at their best      *)
+(* periodic images.  "Every atom within atol after one proper rotation plus *)
+(* translation" implies rms <= atol for the best fit, so rms > atol refutes *)
+(* the match (a mirror image of a chiral pattern has a large proper-fit     *)
+(* residual).  rot_rms[m]: the same for the RETURNED rotation with the best *)
+(* translation, against the returned positions.                             *)
+(***************************************************************************)
+JudgeFit(e) ==
+  LET M == 1..Len(e.matches)
+  IN IF e.exc # "none" THEN "no-exception"
+     ELSE IF e.widths_ok # "yes" THEN "blocked:cell-not-wider-than-pattern-plus-twice-the-tolerance"
+     ELSE IF e.inside # "yes" THEN "blocked:atoms-outside-the-cell"
+     ELSE IF \E m \in M : Len(e.matches[m]) # e.npat THEN "match-has-one-atom-per-pattern-atom"
+     ELSE IF \E m \in M : \E k \in 1..e.npat : e.matches[m][k] < 0 \/ e.matches[m][k] >= e.natoms THEN "index-is-an-existing-atom"
+     ELSE IF \E m \in M : Cardinality(SetOf(e.matches[m])) # e.npat THEN "atom-listed-twice-in-a-match"
+     ELSE IF \E m \in M : e.el_ok[m] # "yes" THEN "elements-in-pattern-order"
+     ELSE IF \E m \in M : e.rms[m] > e.atol THEN "not-a-proper-rigid-image-within-tolerance"
+     ELSE IF \E m \in M : e.rpos_ok[m] = "no" THEN "position-is-stored-plus-lattice-vector"
+     ELSE IF \E m \in M : e.rot_rms[m] > e.atol THEN "returned-rotation-carries-pattern-onto-returned-positions"
+     ELSE IF ~NoDup(e.matches) THEN "group-reported-twice"
+     ELSE "ok"
+
+Judge(e) == IF e.kind = "groups" THEN JudgeGroups(e) ELSE IF e.kind = "self" THEN JudgeSelf(e)
+            ELSE IF e.kind = "fit" THEN JudgeFit(e) ELSE JudgeBack(e)
 =============================================================================
